@@ -1,3 +1,4 @@
+import Rpcx.Model.Atomic
 import Rpcx.Model.Shutdown
 /-
   C16: "Graceful shutdown, unless its own deadline expires first, lets every request the server
@@ -218,5 +219,28 @@ theorem shutdown_idempotent (s : State) : step (step s .sdBegin) .sdBegin = step
 example : let s := run init [.read 0, .start 0, .sdBegin, .sdPoll, .write 0, .finish 0, .sdPoll, .sdCloseConns, .sdCloseDone, .acceptFail]
     (s.reqs 0).delivered = true ∧ (s.reqs 0).lost = false ∧ s.pc = .completed ∧ s.serveRet = some true ∧ s.doneCloses = 1 := by
   decide
+
+/-! ### the model's steps are the code's critical sections / statement order (regenerated facts) -/
+
+theorem tie_atomic : Gen.atomicTieOk = true := by decide
+
+/-- `closeConns` + `closeDone` of Shutdown are one critical section, and so is all of `Close` -/
+theorem tie_shutdown_final_atomic :
+    Atomic.sameRegion .serverShutdown .serverMu [.rangeActive, .deleteActive, .closeDone] = true
+    ∧ Atomic.sameRegion .serverClose .serverMu [.lnClose, .rangeActive, .deleteActive, .closeDone] = true := by
+  decide
+
+/-- the in-progress count brackets the response write: `processOneRequest` increments it before
+    it calls `sendResponse`, and decrements it only on the way out (deferred) – `start … write …
+    finish` of the model, in this order, in one function -/
+theorem tie_count_brackets_write :
+    Atomic.occursBefore .serverProcessOne .countInc .sendResponse = true
+    ∧ Atomic.occursBefore .serverProcessOne .countInc .handleRequest = true
+    ∧ Atomic.occurs .serverProcessOne .countDecDeferred = true := by decide
+
+/-- no mutex of the server is acquired while itself held, and no two are acquired in both orders
+    (directly or through calls between the server's own methods): Shutdown and Close cannot
+    deadlock against each other on lock order -/
+theorem tie_lock_order_acyclic : Atomic.lockOrderAcyclic = true := by decide
 
 end Rpcx.Props.C16
